@@ -1483,7 +1483,16 @@ impl Exec for VirtualSystem {
                 Ok(file) => file,
                 Err(e) => return ready(Err(e)),
             };
-            // TODO Check file permissions
+            // A file that is not a regular file or has no execute permission
+            // cannot be executed.
+            {
+                let file = file.borrow();
+                if !matches!(file.body, FileBody::Regular { .. })
+                    || !file.permissions.intersects(Mode::ALL_EXEC)
+                {
+                    return ready(Err(Errno::EACCES));
+                }
+            }
             let is_executable = matches!(
                 &file.borrow().body,
                 FileBody::Regular {
